@@ -79,6 +79,10 @@ func (c *c01Case) scenario() *Scenario {
 		case "stall":
 			cur = append(cur, Step{Op: "stall"})
 			flush()
+		case "late":
+			// answers, but never asks for the next event: the invocation is not complete when the function timeout expires
+			cur = append(cur, Step{Op: "rt.response", ID: "cur", BodyMode: "transform", Tag: tag}, Step{Op: "stall"})
+			flush()
 		}
 		if knock {
 			sc.Driver = append(sc.Driver, Step{Op: "invoke", Async: true, Tag: tag, Payload: &c.Invs[i].Payload, ClientCtx: inv.Ctx, Trace: inv.Trace},
@@ -94,7 +98,7 @@ func (c *c01Case) scenario() *Scenario {
 	sc.Actors["runtime"] = scripts
 	budget := 20
 	for _, inv := range c.Invs {
-		if inv.Kind == "stall" {
+		if inv.Kind == "stall" || inv.Kind == "late" {
 			budget += 4
 		}
 		if inv.Payload.Len > 1<<20 {
@@ -143,7 +147,7 @@ func c01Check(c c01Case) kit.Outcome {
 		if inv.Payload.Len >= maxPayload-1 {
 			out.Label("payload:limit")
 		}
-		if i > 0 && (c.Invs[i-1].Kind == "crash" || c.Invs[i-1].Kind == "stall" || c.Invs[i-1].Kind == "oversize" || c.Invs[i-1].Kind == "error") {
+		if i > 0 && (c.Invs[i-1].Kind == "crash" || c.Invs[i-1].Kind == "stall" || c.Invs[i-1].Kind == "late" || c.Invs[i-1].Kind == "oversize" || c.Invs[i-1].Kind == "error") {
 			afterBad = true
 		}
 	}
@@ -208,7 +212,7 @@ func c01Check(c c01Case) kit.Outcome {
 			}
 		}
 		prevEnd = ret.Seq
-		if cut && inv.Kind == "stall" && len(got) == 0 {
+		if cut && (inv.Kind == "stall" || inv.Kind == "late") && len(got) == 0 {
 			// a large event was still on its way when the function timeout expired: only the caller's outcome can be judged
 			out.Label("delivery-cut-by-timeout")
 			wantText := fmt.Sprintf("Task timed out after %d.00 seconds", c.TimeoutEnvS)
@@ -218,7 +222,7 @@ func c01Check(c c01Case) kit.Outcome {
 			}
 			continue
 		}
-		if inv.Kind != "stall" && ret.Status == 200 && strings.HasPrefix(ret.Text, "Task timed out") && run.starved(c.TimeoutMs) {
+		if inv.Kind != "stall" && inv.Kind != "late" && ret.Status == 200 && strings.HasPrefix(ret.Text, "Task timed out") && run.starved(c.TimeoutMs) {
 			out.Inconclusive = "host starved: an invocation that should complete timed out"
 			return out
 		}
@@ -340,6 +344,18 @@ func c01Check(c c01Case) kit.Outcome {
 				out.Violate("C01/timeout-outcome", "invocation %s: runtime stalled; caller got %d %q, expected %q", tag, ret.Status, clip(ret.Text, 200), wantText)
 				return out
 			}
+		case "late":
+			// exactly one outcome: the response the runtime posted, or the timeout - not one after the other
+			wantText := fmt.Sprintf("Task timed out after %d.00 seconds", c.TimeoutEnvS)
+			ps := kit.Summarise(posted)
+			isResp := ret.Status == 200 && ret.Body != nil && ret.Body.Sha == ps.Sha && ret.Body.Len == ps.Len
+			if !isResp && !(ret.Status == 200 && ret.Text == wantText) {
+				out.Violate("C01/two-outcomes", "invocation %s: the runtime answered and then never asked for its next event; caller got %d %q, expected exactly the posted response or exactly %q", tag, ret.Status, clip(ret.Text, 200), wantText)
+				return out
+			}
+			if sub != nil && sub.Status != 202 {
+				out.Label("late:answer-refused")
+			}
 		}
 	}
 	return out
@@ -405,8 +421,8 @@ func c01Gen(t *rapid.T) c01Case {
 	bigs := 0
 	stalls := 0
 	for i := 0; i < n; i++ {
-		kind := rapid.SampledFrom([]string{"ok", "ok", "ok", "ok", "error", "repoll", "crash", "stall", "oversize"}).Draw(t, fmt.Sprintf("kind%d", i))
-		if kind == "stall" {
+		kind := rapid.SampledFrom([]string{"ok", "ok", "ok", "ok", "error", "repoll", "crash", "stall", "late", "oversize"}).Draw(t, fmt.Sprintf("kind%d", i))
+		if kind == "stall" || kind == "late" {
 			stalls++
 			if stalls > 1 {
 				kind = "ok"
@@ -460,6 +476,10 @@ func c01Fixed() []c01Case {
 			{Payload: kit.Blob{Len: 20, Seed: 2, Kind: "json"}, Kind: "ok"},
 			{Payload: kit.Blob{Len: 20, Seed: 3, Kind: "json"}, Kind: "crash"},
 			{Payload: kit.Blob{Len: 7, Seed: 4, Kind: "ascii"}, Kind: "ok"}}},
+		{TimeoutMs: 300, TimeoutEnvS: 3, Invs: []c01Inv{
+			{Payload: kit.Blob{Len: 40, Seed: 1, Kind: "json"}, Kind: "ok"},
+			{Payload: kit.Blob{Len: 41, Seed: 2, Kind: "json"}, Kind: "late"},
+			{Payload: kit.Blob{Len: 42, Seed: 3, Kind: "ascii"}, Kind: "ok"}}},
 		{TimeoutMs: 5000, TimeoutEnvS: 3, InitDelayMs: 600, Ext: true, Invs: []c01Inv{
 			{Payload: kit.Blob{Len: 17, Seed: 1, Kind: "ascii"}, Kind: "ok"}, {Payload: kit.Blob{Len: 18, Seed: 2, Kind: "ascii"}, Kind: "ok"}}},
 		{TimeoutMs: 5000, TimeoutEnvS: 3, Invs: []c01Inv{
